@@ -106,3 +106,23 @@ def colour_sentinel(ctx):
     init = [s for s in fn.body if isinstance(s, ast.Assign) and unparse(s.targets[0]) == "self._color_map"]
     s = _sentinel(init[0].value) if len(init) == 1 else None
     r.check(s is not None and s < 0, "_compute_color_map", SP, "FunctionSpace._compute_color_map", fn.lineno, "colour map sentinel", "the colour map is initialised with %s: unsupported / uncoloured elements carry a valid colour and are grouped with the elements of that colour" % s)
+
+
+def projection_dtype(ctx):
+    """C13: the projection vector of a callable is real only for callables declared real."""
+    GF = "bempp_cl/api/assembly/grid_function.py"
+    r = ctx.rule("GF-PROJECT-DTYPE", "GridFunction(fun=...): the projection buffer is float64 for a real_callable and complex128 for a complex_callable (a complex function projected into a real buffer loses its imaginary part)", 2)
+    fn = ctx.repo.mod(GF).fn("GridFunction.__init__")
+    ifs = [s for s in ast.walk(fn) if isinstance(s, ast.If) and "bempp_type" in unparse(s.test)]
+    if len(ifs) != 1:
+        raise AnalysisError("GridFunction.__init__: the switch on the callable's bempp_type was not found")
+    chain = [unparse(n) for n in ast.walk(ifs[0].test) if isinstance(n, ast.Attribute) and n.attr == "bempp_type"][0]
+    alloc = [s for s in ast.walk(fn) if isinstance(s, ast.Assign) and isinstance(s.value, ast.Call) and any(k.arg == "dtype" and isinstance(k.value, ast.Name) for k in s.value.keywords) and s.lineno > ifs[0].lineno
+             and "projections" in unparse(s.targets[0])]
+    if not alloc:
+        raise AnalysisError("GridFunction.__init__: projection buffer allocation with a dtype variable not found")
+    dname = [k.value.id for k in alloc[0].value.keywords if k.arg == "dtype"][0]
+    for kind, want in (("real", "float64"), ("complex", "complex128")):
+        effs = dispatch.effects([ifs[0]], {chain: kind, "function_parameters": "‹p›"}, "GridFunction.__init__")
+        got = [e[2] for e in effs if e[0] == "set" and e[1] == dname]
+        r.check(got == [want], "%s callable" % kind, GF, "GridFunction.__init__", ifs[0].lineno, "projection dtype for a %s callable" % kind, "a %s callable is projected into a buffer of dtype %s, expected %s" % (kind, got, want))
